@@ -674,9 +674,10 @@ theorem tombstone_pos (s : Nat) (hs : ValidSize s) : 0 < tombstone s := by
   have := addrMod_ge s hs
   unfold tombstone; omega
 
-theorem writeEntryBare_enc {m : Mode} {k : Kind} {c : Cfg} {eo : EOff} {uoff : Nat} {hb hb' : Bool}
-    {x : WEntry} {bs : Bytes} (h : writeEntryBare m k c eo uoff hb x = .ok (bs, hb'))
-    (hm : Machine k c eo uoff x) (he : U64EOff eo) (hv : c.version ≤ 4) (hno : ¬ OnesBegin c x) :
+theorem writeEntryBare_enc {m : Mode} {mk : Nat} {k : Kind} {c : Cfg} {eo : EOff} {uoff : Nat} {hb hb' : Bool}
+    {x : WEntry} {bs : Bytes} (hmk : marker m c.addrSize = .ok mk)
+    (h : writeEntryBare mk k c eo uoff hb x = .ok (bs, hb'))
+    (hm : Machine k c eo uoff x) (he : U64EOff eo) (hv : c.version ≤ 4) :
     ValidSize c.addrSize ∧
     bs = encodeEntry k c .bare (toBare (dataBytes k c eo uoff) x) ∧
     WfEntry k c .bare (toBare (dataBytes k c eo uoff) x) ∧
@@ -690,16 +691,15 @@ theorem writeEntryBare_enc {m : Mode} {k : Kind} {c : Cfg} {eo : EOff} {uoff : N
   cases x with
   | baseAddress a =>
     simp only [writeEntryBare] at h
-    obtain ⟨mk, h0, h1⟩ := bind_ok_inv h
-    obtain ⟨b1, h2, h3⟩ := bind_ok_inv h1
+    obtain ⟨b1, h2, h3⟩ := bind_ok_inv h
     obtain ⟨b2, h4, h5⟩ := bind_ok_inv h3
     simp only [Out.pure_eq, Out.ok.injEq, Prod.mk.injEq] at h5
     obtain ⟨rfl, rfl⟩ := h5
     obtain ⟨hb1, _, hs⟩ := writeUdata_ok h2
     obtain ⟨v, rfl, hb2, _, _⟩ := writeAddress_ok h4
     have hfit := writeAddress_fits h4 hu
-    have hmk := marker_valid h0 hs
-    subst hb1 hb2 hmk
+    have hmkv := marker_valid hmk hs
+    subst hb1 hb2 hmkv
     refine ⟨hs, by simp [encodeEntry, toBare, encAddr, addrVal], by simpa [WfEntry, toBare, addrVal] using hfit, ?_⟩
     intro base xs ys _ hrec
     simp only [toBare, asBuilt, addrVal, resolveList, resolve1]
@@ -708,7 +708,9 @@ theorem writeEntryBare_enc {m : Mode} {k : Kind} {c : Cfg} {eo : EOff} {uoff : N
     simp only [writeEntryBare] at h
     split at h
     · simp at h
-    · rename_i hne
+    · rename_i hne0
+      have hne : ¬ b = e := fun h => hne0 (.inl h)
+      have hnm : ¬ b = mk := fun h => hne0 (.inr h)
       split at h
       · simp at h
       · rename_i hhb
@@ -725,7 +727,7 @@ theorem writeEntryBare_enc {m : Mode} {k : Kind} {c : Cfg} {eo : EOff} {uoff : N
         subst hb1 hb2
         refine ⟨hs, by rw [hd]; simp [encodeEntry, toBare, encAddr], ?_, ?_⟩
         · refine ⟨hf1, hf2, by omega, ?_, hwf⟩
-          simpa [OnesBegin] using hno
+          rw [← marker_valid hmk hs]; exact hnm
         · intro base xs ys _ hrec
           simp only [toBare, asBuilt, resolveList, resolve1]
           rw [hrec base (by assumption)]
@@ -733,7 +735,9 @@ theorem writeEntryBare_enc {m : Mode} {k : Kind} {c : Cfg} {eo : EOff} {uoff : N
     simp only [writeEntryBare] at h
     split at h
     · simp at h
-    · rename_i hne
+    · rename_i hne0
+      have hne : ¬ b = e := fun h => hne0 (.inl h)
+      have hnm : ¬ b = .const mk := fun h => hne0 (.inr h)
       split at h
       · simp at h
       · rename_i hhb
@@ -751,7 +755,7 @@ theorem writeEntryBare_enc {m : Mode} {k : Kind} {c : Cfg} {eo : EOff} {uoff : N
         have hf2 := writeAddress_fits h4 hu.2.1
         obtain ⟨hd, hwf⟩ := writeData_enc .bare h6 hu.2.2 he hvv hl
         have hne' : vb ≠ ve := fun e => hne (by rw [e])
-        have hno' : vb ≠ addrMod c.addrSize - 1 := fun e => hno (by simp [OnesBegin, e])
+        have hno' : vb ≠ addrMod c.addrSize - 1 := fun e => hnm (by rw [marker_valid hmk hs, e])
         subst h7 hb1 hb2
         refine ⟨hs, by rw [hd]; simp [encodeEntry, toBare, encAddr, addrVal], ?_, ?_⟩
         · exact ⟨hf1, hf2, fun h => hne' (h.1.trans h.2.symm), hno', hwf⟩
@@ -772,7 +776,9 @@ theorem writeEntryBare_enc {m : Mode} {k : Kind} {c : Cfg} {eo : EOff} {uoff : N
     obtain ⟨e, h00, h01⟩ := bind_ok_inv h
     split at h01
     · simp at h01
-    · rename_i hne
+    · rename_i hne0
+      have hne : ¬ b = e := fun h => hne0 (.inl h)
+      have hnm : ¬ b = .const mk := fun h => hne0 (.inr h)
       split at h01
       · simp at h01
       · rename_i hhb
@@ -797,7 +803,7 @@ theorem writeEntryBare_enc {m : Mode} {k : Kind} {c : Cfg} {eo : EOff} {uoff : N
           subst hve
           obtain ⟨hd, hwf⟩ := writeData_enc .bare h6 hu.2.2 he hvv hl
           have hlen0 : len ≠ 0 := fun e => hne (by simp [e])
-          have hno' : vb ≠ addrMod c.addrSize - 1 := fun e => hno (by simp [OnesBegin, e])
+          have hno' : vb ≠ addrMod c.addrSize - 1 := fun e => hnm (by rw [marker_valid hmk hs, e])
           subst h7 hb1 hb2
           refine ⟨hs, by rw [hd]; simp [encodeEntry, toBare, encAddr, addrVal], ?_, ?_⟩
           · exact ⟨hf1, hf2, by omega, hno', hwf⟩
@@ -827,27 +833,28 @@ theorem writeTermBare_ok {c : Cfg} {bs : Bytes} (h : writeTermBare c = .ok bs) :
   subst h4 e1 e2
   exact ⟨hs, by simp [terminator, encAddr]⟩
 
-theorem writeEntriesBare_enc {m : Mode} {k : Kind} {c : Cfg} {eo : EOff} {uoff : Nat} (he : U64EOff eo)
+theorem writeEntriesBare_enc {m : Mode} {mk : Nat} {k : Kind} {c : Cfg} {eo : EOff} {uoff : Nat}
+    (hmk : marker m c.addrSize = .ok mk) (he : U64EOff eo)
     (hv : c.version ≤ 4) : ∀ (l : WList) (hb : Bool) (bs : Bytes) (base : Nat),
-      writeEntriesBare m k c eo uoff hb l = .ok bs →
-      (∀ x ∈ l, Machine k c eo uoff x) → (∀ x ∈ l, ¬ OnesBegin c x) → (hb = false → base = 0) →
+      writeEntriesBare mk k c eo uoff hb l = .ok bs →
+      (∀ x ∈ l, Machine k c eo uoff x) → (hb = false → base = 0) →
       ValidSize c.addrSize ∧
       bs = encodeList k c .bare (l.map (toBare (dataBytes k c eo uoff))) ∧
       (∀ y ∈ l.map (toBare (dataBytes k c eo uoff)), WfEntry k c .bare y) ∧
       resolveList c.addrSize noTable base (l.map (toBare (dataBytes k c eo uoff))) =
         resolveList c.addrSize noTable base (l.map (asBuilt (dataBytes k c eo uoff)))
-  | [], hb, bs, base, h, _, _, _ => by
+  | [], hb, bs, base, h, _, _ => by
     simp only [writeEntriesBare] at h
     obtain ⟨hs, e⟩ := writeTermBare_ok h
     exact ⟨hs, by simp [e, encodeList], by simp, rfl⟩
-  | x :: xs, hb, bs, base, h, hm, hno, hbase => by
+  | x :: xs, hb, bs, base, h, hm, hbase => by
     simp only [writeEntriesBare] at h
     obtain ⟨⟨b1, hb'⟩, h1, h2⟩ := bind_ok_inv h
     obtain ⟨b2, h3, h4⟩ := bind_ok_inv h2
     simp only [Out.pure_eq, Out.ok.injEq] at h4
-    obtain ⟨hs, e1, w1, r1⟩ := writeEntryBare_enc h1 (hm x (by simp)) he hv (hno x (by simp))
-    have ih := fun base' hb0 => writeEntriesBare_enc he hv xs hb' b2 base' h3
-      (fun y hy => hm y (by simp [hy])) (fun y hy => hno y (by simp [hy])) hb0
+    obtain ⟨hs, e1, w1, r1⟩ := writeEntryBare_enc hmk h1 (hm x (by simp)) he hv
+    have ih := fun base' hb0 => writeEntriesBare_enc hmk he hv xs hb' b2 base' h3
+      (fun y hy => hm y (by simp [hy])) hb0
     obtain ⟨_, e2, w2, _⟩ := ih (if hb' = false then 0 else base) (by intro h; simp [h])
     subst h4
     refine ⟨hs, by simp [encodeList, e1, e2], ?_, ?_⟩
@@ -866,7 +873,6 @@ theorem table_roundtrip_prev5 (m : Mode) (k : Kind) (c : Cfg) (eo : EOff) (uoff 
     (prior other : Bytes) (tbl : List WList) (bytes : Bytes) (offs : List Nat)
     (hv : 2 ≤ c.version ∧ c.version ≤ 4) (he : U64EOff eo)
     (hm : ∀ l ∈ tbl, ∀ x ∈ l, Machine k c eo uoff x)
-    (hno : ∀ l ∈ tbl, ∀ x ∈ l, ¬ OnesBegin c x)
     (hw : writeTable m k c eo uoff ub prior.length tbl = .ok (bytes, offs))
     (base : Nat) (hbase : ub = false → base = 0) (i : Nat) (hi : i < tbl.length) :
     ∃ off evs, offs[i]? = some off ∧
@@ -877,10 +883,11 @@ theorem table_roundtrip_prev5 (m : Mode) (k : Kind) (c : Cfg) (eo : EOff) (uoff 
     | nil => simp at hi
     | cons _ _ => rfl
   simp only [writeTable, hne, Bool.false_eq_true, if_false, hv, and_self, if_true] at hw
+  obtain ⟨mk, hmk, hw⟩ := bind_ok_inv hw
   obtain ⟨_, hat⟩ := writeLists_at _ tbl _ bytes offs hw
   obtain ⟨pre, bsi, post, e1, e2, e3⟩ := hat i hi
-  obtain ⟨hs, e4, w4, r4⟩ := writeEntriesBare_enc he hv.2 tbl[i] ub bsi base e2
-    (hm tbl[i] (List.getElem_mem hi)) (hno tbl[i] (List.getElem_mem hi)) hbase
+  obtain ⟨hs, e4, w4, r4⟩ := writeEntriesBare_enc hmk he hv.2 tbl[i] ub bsi base e2
+    (hm tbl[i] (List.getElem_mem hi)) hbase
   have hsf := sectionFormat_legacy k c.version hv.2
   have hr := Props.C08.resolve_refines_at k c false [] 0 base hs (by simp)
     (tbl[i].map (toBare (dataBytes k c eo uoff))) (prior ++ pre) post other
@@ -937,7 +944,6 @@ theorem lists_roundtrip_prev5 (m : Mode) (k : Kind) (c : Cfg) (eo : EOff) (uoff 
     (prior other : Bytes) (lists : List WList) (r : Bytes × List Nat)
     (hv : 2 ≤ c.version ∧ c.version ≤ 4) (he : U64EOff eo)
     (hm : ∀ l ∈ lists, ∀ x ∈ l, Machine k c eo uoff x)
-    (hno : ∀ l ∈ lists, ∀ x ∈ l, ¬ OnesBegin c x)
     (hw : writeTable m k c eo uoff ub prior.length (addAll [] lists).1 = .ok r)
     (base : Nat) (hbase : ub = false → base = 0) (j : Nat) (hj : j < lists.length) :
     ∃ off evs, (handOver r.2 (addAll [] lists).2)[j]? = some off ∧
@@ -952,7 +958,7 @@ theorem lists_roundtrip_prev5 (m : Mode) (k : Kind) (c : Cfg) (eo : EOff) (uoff 
   have hget : (addAll [] lists).1[id] = lists[j] := by
     rw [List.getElem?_eq_getElem hlt] at hid2; simpa using hid2
   obtain ⟨off, evs, h1, h2, h3⟩ := table_roundtrip_prev5 m k c eo uoff ub prior other (addAll [] lists).1 r.1 r.2
-    hv he (addAll_machine lists hm) (addAll_machine lists hno) hw base hbase id hlt
+    hv he (addAll_machine lists hm) hw base hbase id hlt
   refine ⟨off, evs, handOver_at hid1 h1, h2, ?_⟩
   rw [h3, hget]
 
@@ -1001,8 +1007,9 @@ def bareWords (c : Cfg) : WEntry → Nat × Nat
   | .startLength b len _ => (addrVal b, addrVal b + len)
   | .defaultLocation _ => (0, 0)
 
-theorem writeEntryBare_words {m : Mode} {k : Kind} {c : Cfg} {eo : EOff} {uoff : Nat} {hb hb' : Bool}
-    {x : WEntry} {bs : Bytes} (h : writeEntryBare m k c eo uoff hb x = .ok (bs, hb'))
+theorem writeEntryBare_words {m : Mode} {mk : Nat} {k : Kind} {c : Cfg} {eo : EOff} {uoff : Nat} {hb hb' : Bool}
+    {x : WEntry} {bs : Bytes} (hmk : marker m c.addrSize = .ok mk)
+    (h : writeEntryBare mk k c eo uoff hb x = .ok (bs, hb'))
     (hu : U64Entry x) :
     ValidSize c.addrSize ∧ (bareWords c x).1 < addrMod c.addrSize ∧ (bareWords c x).2 < addrMod c.addrSize ∧
     ¬ ((bareWords c x).1 = 0 ∧ (bareWords c x).2 = 0) ∧
@@ -1010,17 +1017,16 @@ theorem writeEntryBare_words {m : Mode} {k : Kind} {c : Cfg} {eo : EOff} {uoff :
   cases x with
   | baseAddress a =>
     simp only [writeEntryBare] at h
-    obtain ⟨mk, h0, h1⟩ := bind_ok_inv h
-    obtain ⟨b1, h2, h3⟩ := bind_ok_inv h1
+    obtain ⟨b1, h2, h3⟩ := bind_ok_inv h
     obtain ⟨b2, h4, h5⟩ := bind_ok_inv h3
     simp only [Out.pure_eq, Out.ok.injEq, Prod.mk.injEq] at h5
     obtain ⟨rfl, rfl⟩ := h5
     obtain ⟨hb1, _, hs⟩ := writeUdata_ok h2
     obtain ⟨v, rfl, hb2, _, _⟩ := writeAddress_ok h4
     have hfit := writeAddress_fits h4 hu
-    have hmk := marker_valid h0 hs
+    have hmkv := marker_valid hmk hs
     have hM := addrMod_ge c.addrSize hs
-    subst hb1 hb2 hmk
+    subst hb1 hb2 hmkv
     exact ⟨hs, by simp only [bareWords]; omega, by simpa [bareWords, addrVal] using hfit,
       by simp only [bareWords]; omega, [], by simp [bareWords, encAddr, addrVal]⟩
   | offsetPair b e x =>
@@ -1060,7 +1066,7 @@ theorem writeEntryBare_words {m : Mode} {k : Kind} {c : Cfg} {eo : EOff} {uoff :
         obtain ⟨ve, rfl, hb2, _, _⟩ := writeAddress_ok h4
         have hf1 := writeAddress_fits h2 hu.1
         have hf2 := writeAddress_fits h4 hu.2.1
-        have hne' : vb ≠ ve := fun e => hne (by rw [e])
+        have hne' : vb ≠ ve := fun e => hne (.inl (by rw [e]))
         subst h7 hb1 hb2
         exact ⟨hs, hf1, hf2, fun h => hne' (h.1.trans h.2.symm), d, by simp [bareWords, encAddr, addrVal]⟩
   | startLength b len x =>
@@ -1090,7 +1096,7 @@ theorem writeEntryBare_words {m : Mode} {k : Kind} {c : Cfg} {eo : EOff} {uoff :
           obtain ⟨ve, hve, hb2, _, _⟩ := writeAddress_ok h4
           injection hve with hve
           subst hve
-          have hlen0 : len ≠ 0 := fun e => hne (by simp [e])
+          have hlen0 : len ≠ 0 := fun e => hne (.inl (by simp [e]))
           subst h7 hb1 hb2
           exact ⟨hs, hf1, hf2, by simp only [bareWords, addrVal]; omega, d,
             by simp [bareWords, encAddr, addrVal]⟩
@@ -1256,18 +1262,12 @@ theorem marker_normal (m : Mode) (s : Nat) (h : (1 ≤ s ∧ s ≤ 8) ∨ m = .r
     · contradiction
     · subst h; exact normal_ok _
 
-theorem writeEntryBare_normal (m : Mode) (k : Kind) (c : Cfg) (eo : EOff) (uoff : Nat) (hb : Bool)
-    (x : WEntry) (h : (∀ a, x ≠ .baseAddress a) ∨ (marker m c.addrSize).Normal) :
-    (writeEntryBare m k c eo uoff hb x).Normal := by
+theorem writeEntryBare_normal (mk : Nat) (k : Kind) (c : Cfg) (eo : EOff) (uoff : Nat) (hb : Bool)
+    (x : WEntry) : (writeEntryBare mk k c eo uoff hb x).Normal := by
   cases x with
   | baseAddress a =>
-    have hm : (marker m c.addrSize).Normal := by
-      rcases h with h | h
-      · exact absurd rfl (h a)
-      · exact h
-    exact normal_bind _ _ hm fun _ =>
-      normal_bind _ _ (writeUdata_normal _ _ _) fun _ =>
-        normal_bind _ _ (writeAddress_normal c a) fun _ => normal_ok _
+    exact normal_bind _ _ (writeUdata_normal _ _ _) fun _ =>
+      normal_bind _ _ (writeAddress_normal c a) fun _ => normal_ok _
   | offsetPair b e x =>
     simp only [writeEntryBare]
     split
@@ -1293,15 +1293,14 @@ theorem writeEntryBare_normal (m : Mode) (k : Kind) (c : Cfg) (eo : EOff) (uoff 
       · exact normal_bind _ _ (writeAddrPair_normal k c eo uoff b e x) fun _ => normal_ok _
   | defaultLocation x => exact normal_err _
 
-theorem writeEntriesBare_normal (m : Mode) (k : Kind) (c : Cfg) (eo : EOff) (uoff : Nat)
-    (hm : (marker m c.addrSize).Normal) : ∀ (l : WList) (hb : Bool),
-    (writeEntriesBare m k c eo uoff hb l).Normal
+theorem writeEntriesBare_normal (mk : Nat) (k : Kind) (c : Cfg) (eo : EOff) (uoff : Nat) :
+    ∀ (l : WList) (hb : Bool), (writeEntriesBare mk k c eo uoff hb l).Normal
   | [], _ =>
     normal_bind _ _ (writeUdata_normal _ _ _) fun _ =>
       normal_bind _ _ (writeUdata_normal _ _ _) fun _ => normal_ok _
   | x :: xs, hb =>
-    normal_bind _ _ (writeEntryBare_normal m k c eo uoff hb x (.inr hm)) fun p =>
-      normal_bind _ _ (writeEntriesBare_normal m k c eo uoff hm xs p.2) fun _ => normal_ok _
+    normal_bind _ _ (writeEntryBare_normal mk k c eo uoff hb x) fun p =>
+      normal_bind _ _ (writeEntriesBare_normal mk k c eo uoff xs p.2) fun _ => normal_ok _
 
 theorem writeEntryCoded_normal (k : Kind) (c : Cfg) (eo : EOff) (uoff : Nat) (x : WEntry) :
     (writeEntryCoded k c eo uoff x).Normal := by
@@ -1343,7 +1342,8 @@ theorem writeTable_normal (m : Mode) (k : Kind) (c : Cfg) (eo : EOff) (uoff : Na
   split
   · exact normal_ok _
   · split
-    · exact writeLists_normal _ (fun l => writeEntriesBare_normal m k c eo uoff hm l ub) _ _
+    · exact normal_bind _ _ hm fun mk =>
+        writeLists_normal _ (fun l => writeEntriesBare_normal mk k c eo uoff l ub) _ _
     · split
       · exact normal_bind _ _ (writeLists_normal _ (writeEntriesCoded_normal k c eo uoff) _ _) fun _ =>
           normal_bind _ _ (writeInitialLength_normal _ _ _) fun _ => normal_ok _
@@ -1392,8 +1392,8 @@ theorem writeLists_increasing (one : WList → Out Bytes) (h1 : ∀ l bs, one l 
     · rw [List.pairwise_cons]
       exact ⟨fun o ho => by have := ih1 o ho; omega, ih2⟩
 
-theorem writeEntriesBare_pos {m : Mode} {k : Kind} {c : Cfg} {eo : EOff} {uoff : Nat} :
-    ∀ (l : WList) (hb : Bool) (bs : Bytes), writeEntriesBare m k c eo uoff hb l = .ok bs → 1 ≤ bs.length
+theorem writeEntriesBare_pos {mk : Nat} {k : Kind} {c : Cfg} {eo : EOff} {uoff : Nat} :
+    ∀ (l : WList) (hb : Bool) (bs : Bytes), writeEntriesBare mk k c eo uoff hb l = .ok bs → 1 ≤ bs.length
   | [], hb, bs, h => by
     simp only [writeEntriesBare] at h
     obtain ⟨hs, e⟩ := writeTermBare_ok h
@@ -1429,7 +1429,8 @@ theorem writeTable_increasing {m : Mode} {k : Kind} {c : Cfg} {eo : EOff} {uoff 
   · simp only [Out.ok.injEq, Prod.mk.injEq] at hw
     rw [← hw.2]; simp
   · split at hw
-    · exact (writeLists_increasing _ (fun l bs h => writeEntriesBare_pos l ub bs h) _ _ _ _ hw).2
+    · obtain ⟨mk, _, hw⟩ := bind_ok_inv hw
+      exact (writeLists_increasing _ (fun l bs h => writeEntriesBare_pos l ub bs h) _ _ _ _ hw).2
     · split at hw
       · obtain ⟨⟨body, offs'⟩, h1, h2⟩ := bind_ok_inv hw
         obtain ⟨len, _, h4⟩ := bind_ok_inv h2
